@@ -78,10 +78,14 @@ impl<T: RefCnt> HybridProtection<T> {
         // writer can optionally help us out with loading and protecting something.
         let gen = node.new_helping(storage as *const _ as usize);
         // We already synchronized the start of the sequence by SeqCst in the new_helping vs swap on
-        // the pointer. We just need to make sure to bring the pointee in (this can be newer than
-        // what we got in the Debt)
+        // the pointer. We need to bring the pointee in (this can be newer than what we got in the
+        // Debt) ‒ and the load itself has to take part in the SeqCst order: a writer that did not
+        // see our generation in the control (and therefore does not help us) has done its swap
+        // before our new_helping in that order, so a SeqCst load is guaranteed to see that swap.
+        // A mere Acquire load is allowed to return the already removed (and possibly freed)
+        // pointer, which nobody protects any more.
         verif_step!(FALLBACK_LOAD);
-        let candidate = storage.load(Acquire);
+        let candidate = storage.load(SeqCst);
 
         // Try to replace the debt with our candidate. If it works, we get the debt slot to use. If
         // not, we get a replacement value, already protected and a debt to take care of.
